@@ -225,7 +225,10 @@ func addSecond(rt *rapid.T, p *Pair, a, b *[]Route) {
 
 // --------------------------------------------------------------- iptables
 
-var iptAddrs = []string{"10.1.1.1/32", "10.1.1.2/32", "10.1.1.0/24", "10.1.2.0/24", "10.2.0.0/16", "10.1.1.16/28", "224.0.0.18/32"}
+// (among them addresses that differ only in their last characters: host .2
+// / .3 / .22 / .23, prefix /22 / /23 of one network)
+var iptAddrs = []string{"10.1.1.1/32", "10.1.1.2/32", "10.1.1.0/24", "10.1.2.0/24", "10.2.0.0/16", "10.1.1.16/28", "224.0.0.18/32",
+	"10.1.1.3/32", "10.1.1.22/32", "10.1.1.23/32", "10.20.0.0/22", "10.20.0.0/23"}
 var iptPorts = [][2]int{{22, 22}, {80, 80}, {123, 123}, {1024, 65535}, {0, 1023}, {3000, 4000}, {8080, 8080}, {10000, 65535}, {80, 81}}
 var iptIfaces = []string{"eth0", "eth1"}
 var iptUserChains = []string{"c1", "c2", "c3", "eth0_in", "droplog"}
